@@ -2,8 +2,10 @@
 from . import core
 
 PROP_FILE = 'Properties/C08.v'
-THEOREMS = ['C08_markup_structure', 'C08_lines_are_source_lines', 'C08_width_independent']
+THEOREMS = ['C08_markup_structure', 'C08_lines_are_source_lines', 'C08_width_independent', 'C08_rigid_document_is_width_independent',
+            'C08_unbreakable_document_is_one_line', 'C08_flow_without_comment_is_one_line', 'C08_list_without_comment_is_one_line',
+            'C08_suppressed_sublanguage_one_line_partial']
 
 
 def run(tier, seed, replay=None):
-    return core.run_property('C08', tier, seed, replay, 'c08', PROP_FILE, THEOREMS, 'prose was changed: a blank/line break/paragraph break between pieces of markup was created, removed or converted, or text was edited', ['the re-parsed half needs the parser; proved for every Markup node, context, child conversion and width: line structure, single blanks, mandatory breaks'])
+    return core.run_property('C08', tier, seed, replay, 'c08', PROP_FILE, THEOREMS, 'prose was changed: a blank/line break/paragraph break between pieces of markup was created, removed or converted, or text was edited', ['the re-parsed half needs the parser; proved for every Markup node, context, child conversion and width: line structure, single blanks, mandatory breaks', 'no rewrapping: proved for documents (no flat_alt = one layout at every width) and for the comma-separated lists and flows under break suppression; the hereditary statement for every converter (C08_no_rewrapping_full) is not proved and is decided by the oracle that compares the output at the configured width with the output at an unbounded width'])
